@@ -213,11 +213,13 @@ class Merge(Expr):
             divisions = list(
                 unique(merge_sorted(self.left.divisions, self.right.divisions))
             )
-            if len(divisions) == 1:
-                return (divisions[0], divisions[0])
             if self.left.npartitions == 1 and self.right.npartitions == 1:
                 return (min(divisions), max(divisions))
             if not self._is_single_partition_broadcast:
+                # both sides are repartitioned to the common divisions; a
+                # broadcast keeps the partitions of the larger side instead
+                if len(divisions) == 1:
+                    return (divisions[0], divisions[0])
                 return divisions
 
         if self._is_single_partition_broadcast:
